@@ -42,7 +42,7 @@ def case_strategy(draw):
         "ref": gen.apply_relabel(ref, mp, "int64").tolist(),
         "dtype": dtype,
         "backend": draw(st.sampled_from([None, "cc3d", "scipy"])),
-        "layout": draw(st.sampled_from(["C", "C", "F", "neg"])),
+        "layout": draw(st.sampled_from(["C", "C", "F", "neg", "shared"])),  # shared: both maps are channels of one parent array
         # the same approximator object is first used on a probe of another dimensionality
         "prime": draw(st.sampled_from([None, None, "1d", "2d", "3d"])),
     }
@@ -133,8 +133,12 @@ def check(case, stats):
     if case.get("kind") == "many":
         pred, ref = build_many(case)
     else:
-        pred = gen.with_layout(np.array(case["pred"]).astype(case["dtype"]), case["layout"])
-        ref = gen.with_layout(np.array(case["ref"]).astype(case["dtype"]), case["layout"])
+        if case["layout"] == "shared":
+            parent = np.stack([np.array(case["ref"]), np.array(case["pred"])], axis=-1).astype(case["dtype"])
+            ref, pred = parent[..., 0], parent[..., 1]
+        else:
+            pred = gen.with_layout(np.array(case["pred"]).astype(case["dtype"]), case["layout"])
+            ref = gen.with_layout(np.array(case["ref"]).astype(case["dtype"]), case["layout"])
     bk = case["backend"]
     eff = bk or M.default_backend(pred.ndim)
     differs = any(set(M.cc_partition(a, "scipy")) != set(M.cc_partition(a, "cc3d")) for a in (pred, ref))
